@@ -144,6 +144,12 @@ class Run(object):
                 tgt = {"normal": "www.example.com:80", "exit": "www.example.com.abcd.exit:80", "resolve": "www.example.com:0"}[e["kind"]]
                 status = "NEWRESOLVE" if e["kind"] == "resolve" else "NEW"
                 self.sim.event("650 STREAM %d %s 0 %s SOURCE_ADDR=127.0.0.1:%d PURPOSE=USER\r\n" % (s, status, tgt, e["p"]))
+            elif a in ("StreamFailed", "LateClosed"):
+                s = e["s"]
+                self.cur_stream = s
+                self.A.next = ("none", "imm")
+                word, reason = ("FAILED", "END") if a == "StreamFailed" else ("CLOSED", "DONE")
+                self.sim.event("650 STREAM %d %s 0 www.example.com:80 REASON=%s\r\n" % (s, word, reason))
             elif a == "Answer":
                 s = e["s"]
                 self.cur_stream = s
